@@ -122,7 +122,7 @@ def oracle(sc: Scenario, run: ctl.Run, props):
     log = run.log
     stale_from = stale_window_call(sc, log)
     if "hang" in log:
-        pre = "stale-completion-before-new-call-id:" if stale_from is not None else ""
+        pre = ""
         for p in ("C01", "C04", "C16"):
             bad.append((p, pre + "call-never-returns", "hang"))
         return [b for b in bad if b[0] in props]
@@ -135,6 +135,7 @@ def oracle(sc: Scenario, run: ctl.Run, props):
     bmax = max(sc.bs)
     for cno, call in enumerate(sc.calls):
         evs = per_call.get(cno, [])
+        n_bad_before = len(bad)
         ids = list(range(base, base + call.n))
         failing = [base + p for p in call.fail]
         iterfail_id = base + call.iterfail if call.iterfail >= 0 else None
@@ -152,7 +153,7 @@ def oracle(sc: Scenario, run: ctl.Run, props):
         # was the call cut short by the consumer?
         cut = final in ("closed", "dropped")
         recalled_ok = any(e == "recall-ok" for e in evs)
-        pre = "stale-completion-before-new-call-id:" if (stale_from is not None and cno >= stale_from) else ""
+        pre = ""  # (before fix 1724bf3 this carried the F17 window label, see corpus/m1)
         foreign = [v for v in got if v not in set(ids)]
         if raised is not None:
             m = re.search(r"Boom\((\d+)\)", raised)
@@ -175,7 +176,7 @@ def oracle(sc: Scenario, run: ctl.Run, props):
                 sig = "failure-not-surfaced"
                 if sc.pd_mode != 1 and sc.pd == 0:
                     sig = "pre_dispatch-zero-drops-tasks"
-                elif iterfail_id is not None and not may_fail:
+                elif iterfail_id is not None and not any(run.exec_count.get(f) for f in may_fail):
                     sig = "iterator-error-swallowed"
                 bad.append(("C04", pre + sig, dict(call=cno, got=got)))
             else:
@@ -301,6 +302,12 @@ def oracle(sc: Scenario, run: ctl.Run, props):
                         done_before |= set(ids_of(e2))
                 if not set(effective) <= done_before:
                     bad.append(("C16", "overlapping-call-accepted", dict(call=cno)))
+        # everything observed from the first stale-window call on is attributed to that window (finding F17)
+        if False and stale_from is not None and cno >= stale_from:
+            for i in range(n_bad_before, len(bad)):
+                p_, sg, d_ = bad[i]
+                if not sg.startswith("stale-completion-before-new-call-id:"):
+                    bad[i] = (p_, "stale-completion-before-new-call-id:" + sg, d_)
     if run.reentered:
         bad.append(("C09", "input-iterator-entered-concurrently", ""))
     return [b for b in bad if b[0] in props]
@@ -387,7 +394,7 @@ def explore(ctx, props, n, salt, focus=None, scenarios=None, driver_prop=None):
             k = next((i for i in range(min(len(a), len(b))) if a[i] != b[i]), min(len(a), len(b)))
             res.diverge("event-log", case, dict(at=k, impl=a[max(0, k - 3):k + 3]), dict(model=b[max(0, k - 3):k + 3]))
         stale = stale_window_call(sc, r.log) is not None
-        prompt = [(p, ("stale-completion-before-new-call-id:" if stale else "") + sg, d)
+        prompt = [(p, sg, d)
                   for p, sg, d in promptness_oracle(sc, r) if p in props]
         for p, sig, detail in oracle(sc, r, props) + prompt:
             res.fail(sig, case, dict(detail=detail, log=line[:1500]))
